@@ -29,11 +29,23 @@ class StubWSClient(protocol.Protocol):
             if not self.opened:
                 raise RuntimeError("sim: message before websocket open")
             self._RC.ws_message(msg[1:])
+        elif kind == b"C":
+            # the server's Close frame: Autobahn answers it and is then in
+            # STATE_CLOSING until the peer drops the TCP connection
+            self.closing = True
+            self.transport.write(b"C")
         else:
             raise RuntimeError("sim: bad ws frame %r" % (msg[:20],))
 
+    closing = False
+
     def sendMessage(self, payload, isBinary=False):
         assert not isBinary
+        if self.closing:
+            # autobahn.websocket.protocol.WebSocketProtocol.sendMessage:
+            # "if self.state != STATE_OPEN: raise Disconnected(...)"
+            from autobahn.exception import Disconnected
+            raise Disconnected("Attempt to send on a closed protocol")
         self.transport.write(b"M" + payload)
 
     def connectionLost(self, reason=None):
@@ -97,12 +109,28 @@ class ServerSideProtocol(protocol.Protocol):
             ws.onConnect(_FakeRequest("tcp4:%s:%d" % (peer.host, peer.port)))
             ws.onOpen()
         elif kind == b"M":
+            if self.closing:
+                return      # (a closing websocket ignores further data)
             self.mbox._on_command(self, msg[1:])
             self.ws.onMessage(msg[1:], False)
+        elif kind == b"C":
+            # the client's answer to our Close frame: drop the connection
+            self.transport.loseConnection()
         else:
             raise RuntimeError("sim: bad ws frame from client")
 
+    closing = False
+
+    def send_close_frame(self):
+        """Graceful websocket close started by the server (shutdown,
+        idle reaping, a proxy)."""
+        if not self.closing and self.opened:
+            self.closing = True
+            self.transport.write(b"C")
+
     def send_to_client(self, payload):
+        if self.closing:
+            return
         self.transport.write(b"M" + payload)
 
     def connectionLost(self, reason=None):
